@@ -260,10 +260,11 @@ func indexHeader(
 	}
 
 	// Only records which carry content have been renamed by `AddSuffix`: they carry the uncompressed size and are
-	// neither moves nor metadata-only updates (both of which copy the stored PAX records, but use the plain name)
+	// neither moves, metadata-only updates nor deletions (all of which copy the stored PAX records, but use the plain name)
 	_, isMove := hdr.PAXRecords[records.STFSRecordReplacesName]
 	isMetadataOnly := hdr.PAXRecords[records.STFSRecordReplacesContent] == records.STFSRecordReplacesContentFalse
-	if ok && !isMove && !isMetadataOnly && hdr.FileInfo().Mode().IsRegular() {
+	isDelete := hdr.PAXRecords[records.STFSRecordAction] == records.STFSRecordActionDelete
+	if ok && !isMove && !isMetadataOnly && !isDelete && hdr.FileInfo().Mode().IsRegular() {
 		newName, err := suffix.RemoveSuffix(hdr.Name, compressionFormat, encryptionFormat)
 		if err != nil {
 			return err
